@@ -343,7 +343,8 @@ MANIFEST_META = {
                   "positional call (binding in name order, with names chosen so that name order differs from creation and key "
                   "order) and by a keyword call, and each must equal the operator applied to the numeric operands. Blades dropped by "
                   "the automatic simplification are thereby checked to vanish at three independent valuations."
-                  " A quarter of the cases are three-operand programs (a + b*c*b, sqrt(a*b), ...) whose symbols are named like common-subexpression temporaries (x0, x1, ...); graded algebras, hidden-zero and sympy-number coefficients, norm / normalized are included.",
+                  " A quarter of the cases are three-operand programs (a + b*c*b, sqrt(a*b), ...) whose symbols are named like common-subexpression temporaries (x0, x1, ...); graded algebras, hidden-zero and sympy-number coefficients, norm / normalized are included."
+                  " Coefficients may be instances of a Symbol subclass; d=4 programs invert a non-simple bivector that is reached symbolically.",
     "level_note": "Trusted: sympy subs/Rational; numeric side is kingdon itself (C02-C08). Identically-zero test is probabilistic "
                   "(3 valuations). d<=3 quick, d<=4 thorough; small patterns for inverse-like operators.",
 }
